@@ -41,6 +41,15 @@ func oracle(parts []PartSpec, o *outcome) *Violation {
 	if o.execErr != "" {
 		add("truncate-failed", "%s", o.execErr)
 	}
+	// a source condition the server cannot compile is refused, by DRYRUN and by the real statement
+	if p.BadSrc != "" {
+		if o.dryErr == "" {
+			add("bad-source-not-refused", "TRUNCATE DRYRUN with a source condition that cannot be compiled (%s) was answered", p.BadSrc)
+		}
+		if o.realErr == "" {
+			add("bad-source-not-refused", "TRUNCATE with a source condition that cannot be compiled (%s) was answered", p.BadSrc)
+		}
+	}
 	// DRYRUN changes nothing
 	for i := range parts {
 		if !sameObs(o.before[i], o.afterDry[i]) {
@@ -49,7 +58,7 @@ func oracle(parts []PartSpec, o *outcome) *Violation {
 	}
 	totalSel := int64(0)
 	for i, ps := range parts {
-		if ps.Grp == "a" && ps.Hold != 2 {
+		if matched(ps, p) && ps.Hold != 2 {
 			totalSel += partSize(o.before[i])
 		}
 	}
@@ -65,10 +74,10 @@ func oracle(parts []PartSpec, o *outcome) *Violation {
 		if ps.Hold == 1 {
 			anyHeld = true
 		}
-		selected := ps.Grp == "a" && ps.Hold != 2
+		selected := matched(ps, p) && ps.Hold != 2
 		if !selected {
 			if !sameObs(bf, af) {
-				add("unselected-partition-touched", "partition %d (grp=%s hold=%d) changed", i, ps.Grp, ps.Hold)
+				add("unselected-partition-touched", "partition %d (grp=%s hold=%d journal-open-fails=%v bad-source=%q) changed", i, ps.Grp, ps.Hold, ps.Fail, p.BadSrc)
 			}
 			continue
 		}
@@ -200,6 +209,16 @@ func oracle(parts []PartSpec, o *outcome) *Violation {
 		}
 		if !same {
 			add("reader-not-at-first-remaining", "reader of partition %d parked after %d events was delivered %v, expected %v", rd.part, rd.consumed, rd.seen, want)
+		}
+	}
+	// the admin's own view of the result (DESCRIBE PARTITION, SHOW PARTITIONS) and RANGE reads of what is left
+	vs = append(vs, o.extra...)
+	// a report line for a partition the statement must not see
+	for _, ls := range [][]Line{o.dryLines, o.realLines} {
+		for _, l := range ls {
+			if l.Key < len(parts) && !matched(parts[l.Key], p) {
+				add("unselected-partition-reported", "the report lists partition %d (grp=%s journal-open-fails=%v bad-source=%q)", l.Key, parts[l.Key].Grp, parts[l.Key].Fail, p.BadSrc)
+			}
 		}
 	}
 	for i := range vs {
